@@ -38,6 +38,16 @@ Proof.
   destruct hay as [|x t]; [reflexivity|]. cbn [List.length] in *. apply IH; lia.
 Qed.
 
+Lemma find_aligned_fuel w needle : (1 <= w)%nat -> forall f1 f2 hay i, (List.length hay < f1)%nat -> (List.length hay < f2)%nat ->
+  find_aligned f1 w needle hay i = find_aligned f2 w needle hay i.
+Proof.
+  intro Hw. induction f1 as [|f1 IH]; intros f2 hay i H1 H2; [lia|]. destruct f2 as [|f2]; [lia|]. cbn [find_aligned].
+  match goal with |- (if ?c then _ else _) = _ => destruct c end; [reflexivity|].
+  destruct hay as [|x t]; [reflexivity|]. apply IH; rewrite skipn_length; cbn [List.length] in *; lia.
+Qed.
+Lemma char_width_pos cs : (1 <= char_width cs)%nat.
+Proof. destruct cs; cbn; lia. Qed.
+
 (* as the models are run *)
 Theorem decode_text_fuel_irrelevant cs bs k :
   match cs with
@@ -51,3 +61,6 @@ Theorem decode_text_fuel_irrelevant cs bs k :
 Proof. destruct cs as [| | | |[o|]|[o|]]; auto; [apply utf8_fuel|apply units_fuel|apply units_fuel]; lia. Qed.
 Theorem bytes_index_fuel_irrelevant needle hay k : find_sub (S (List.length hay) + k) needle hay 0 = bytes_index needle hay.
 Proof. unfold bytes_index. apply find_sub_fuel; lia. Qed.
+Theorem term_index_fuel_irrelevant cs needle hay k :
+  find_aligned (S (List.length hay) + k) (char_width cs) needle hay 0 = term_index cs needle hay.
+Proof. unfold term_index. apply find_aligned_fuel; [apply char_width_pos|lia|lia]. Qed.
